@@ -503,6 +503,7 @@ type minInst struct {
 	statusKind int // 1: terminal status, 2: error, 3: a status registered with NewStatus
 	hasStatus  bool
 	initVals   int
+	primeSame  bool
 	convKind   int
 	pop        int
 	forgetBest bool
@@ -749,6 +750,15 @@ func drawMinimize(t *simrt.Tape) *minInst {
 	case 2:
 		s.Converger = &optimize.FunctionConverge{Absolute: in.fcAbs, Relative: in.fcRel, Iterations: in.fcIter}
 	}
+	if in.recErrAt > 0 && isGlobal(in.method) && in.conc >= 2 && t.Choose(simrt.KFault, 2) == 1 {
+		// two terminal conditions close together: the Recorder fails on one
+		// of the first evaluations while others are in flight, and the
+		// evaluation limit is reached by those when they come back
+		in.recErrAt = 1 + t.Choose(simrt.KFault, 4)
+		in.writerFail = in.recErrAt
+		s.FuncEvaluations = in.recErrAt/2 + 1 + t.Choose(simrt.KFault, in.conc)
+		s.MajorIterations = 0
+	}
 	if in.method == mCmaEs {
 		in.pop = t.Choose(simrt.KWorkload, 7) // 0 = default
 		if in.pop == 1 {
@@ -812,6 +822,10 @@ func drawMinimize(t *simrt.Tape) *minInst {
 		in.prime = 1 + t.Choose(simrt.KWorkload, 4)
 		in.primeN = 1 + t.Choose(simrt.KWorkload, 9)
 		in.primeNaN = t.Choose(simrt.KWorkload, 3) == 2
+		// the earlier run may have been made from the same start with the
+		// same Settings.InitValues: what the caller supplied there is the
+		// caller's, and is handed to the run under test as it was
+		in.primeSame = in.initVals >= 2 && t.Choose(simrt.KWorkload, 2) == 1
 	}
 	return in
 }
@@ -856,6 +870,7 @@ func (in *minInst) describe(m map[string]interface{}) {
 	}
 	if in.prime != 0 {
 		m["earlier_run_gradient_turns_nan"] = in.primeNaN
+		m["earlier_run_same_start_and_init_values"] = in.primeSame
 		m["method_value_reused_after"] = fmt.Sprintf("a run stopped by %s=%d", []string{"", "FuncEvaluations", "GradEvaluations", "HessEvaluations", "Problem.Status at call"}[in.prime], in.primeN)
 	}
 	if in.isolated != 0 {
@@ -1195,6 +1210,10 @@ func (r *minRun) primeMethod() {
 	for i := range x {
 		x[i] = in.initX[i] + 0.5
 	}
+	if in.primeSame && r.set.InitValues != nil {
+		copy(x, in.initX)
+		set.InitValues = r.set.InitValues
+	}
 	// exported tuning fields may be changed between two runs of one method
 	// value: the first run uses the defaults, the run under test the knobs
 	if m, ok := r.method.(*optimize.LBFGS); ok {
@@ -1434,6 +1453,9 @@ func runMinimize(t *simrt.Tape, rc *RunCtx) *Violation {
 		if v := checkListSearchTies(rc, prop, in, r); v != nil {
 			return v
 		}
+		if v := checkRecorderErrorReported(rc, prop, in, r); v != nil {
+			return v
+		}
 		// C09 "always terminate": a run that has returned does not report
 		// itself as not terminated
 		rc.oracle("terminated-status")
@@ -1458,6 +1480,41 @@ func runMinimize(t *simrt.Tape, rc *RunCtx) *Violation {
 		if !same {
 			return &Violation{prop, "minimize/schedule-dependence", fmt.Sprintf("%s circulates a single task, yet the result depends on the schedule: baseline {X:%v F:%v %v %+v err:%v}, this schedule {X:%v F:%v %v %+v err:%v}",
 				name, b.res.X, b.res.F, b.res.Status, b.res.Stats, b.err, res.X, res.F, res.Status, res.Stats, err)}
+		}
+	}
+	return nil
+}
+
+// checkRecorderErrorReported is an oracle of C09 and C19: with Concurrent > 1
+// the results in flight when the Recorder failed must not relabel the run.
+func checkRecorderErrorReported(rc *RunCtx, prop string, in *minInst, r *minRun) *Violation {
+	res, err := r.res, r.err
+	name := methodNames[in.method]
+	if res == nil {
+		return nil
+	}
+	// An injected Recorder failure must come back as an error unless the run
+	// had already been stopped by something else (the first terminal
+	// condition wins; Record is still called for tasks that arrive later and
+	// its error is then dropped). Decidable from outside when the returned
+	// status names a limit: if that limit was not yet reached in the Stats
+	// handed to the failing Record call, the failure came first.
+	rc.oracle("callback-error-reported")
+	if err == nil && r.rec != nil && r.rec.failed > 0 && r.rec.failed <= len(r.rec.entries) {
+		at := r.rec.entries[r.rec.failed-1].stats
+		reached := true
+		switch res.Status {
+		case optimize.FunctionEvaluationLimit:
+			reached = at.FuncEvaluations >= in.set.FuncEvaluations
+		case optimize.GradientEvaluationLimit:
+			reached = at.GradEvaluations >= in.set.GradEvaluations
+		case optimize.HessianEvaluationLimit:
+			reached = at.HessEvaluations >= in.set.HessEvaluations
+		case optimize.IterationLimit:
+			reached = at.MajorIterations >= in.set.MajorIterations
+		}
+		if !reached {
+			return &Violation{prop, "minimize/recorder-error-swallowed", fmt.Sprintf("%s: Recorder.Record failed at call %d, when the Stats were %+v, yet Minimize returned err=nil with status %v, a limit that had not been reached at that moment", name, r.rec.failed, at, res.Status)}
 		}
 	}
 	return nil
@@ -1804,29 +1861,8 @@ func checkC19(rc *RunCtx, in *minInst, r *minRun, nTasks int) *Violation {
 			return &Violation{prop, "minimize/error-status", fmt.Sprintf("%s: error %v returned with status %v, want Failure", name, err, res.Status)}
 		}
 	}
-	// An injected Recorder failure must come back as an error unless the run
-	// had already been stopped by something else (the first terminal
-	// condition wins; Record is still called for tasks that arrive later and
-	// its error is then dropped). Decidable from outside when the returned
-	// status names a limit: if that limit was not yet reached in the Stats
-	// handed to the failing Record call, the failure came first.
-	rc.oracle("callback-error-reported")
-	if err == nil && r.rec != nil && r.rec.failed > 0 && r.rec.failed <= len(r.rec.entries) {
-		at := r.rec.entries[r.rec.failed-1].stats
-		reached := true
-		switch res.Status {
-		case optimize.FunctionEvaluationLimit:
-			reached = at.FuncEvaluations >= in.set.FuncEvaluations
-		case optimize.GradientEvaluationLimit:
-			reached = at.GradEvaluations >= in.set.GradEvaluations
-		case optimize.HessianEvaluationLimit:
-			reached = at.HessEvaluations >= in.set.HessEvaluations
-		case optimize.IterationLimit:
-			reached = at.MajorIterations >= in.set.MajorIterations
-		}
-		if !reached {
-			return &Violation{prop, "minimize/recorder-error-swallowed", fmt.Sprintf("%s: Recorder.Record failed at call %d, when the Stats were %+v, yet Minimize returned err=nil with status %v, a limit that had not been reached at that moment", name, r.rec.failed, at, res.Status)}
-		}
+	if v := checkRecorderErrorReported(rc, prop, in, r); v != nil {
+		return v
 	}
 	// Stats.Runtime is the simulated time the call took
 	rc.oracle("runtime-exact")
